@@ -27,7 +27,8 @@ static std::string check_perm(const KV &c) {
     int fr = (int)tonum(c, "first_round");
     ref::State r; memcpy(r.b, st.data(), 40);
     ref::permute(r, fr);
-    ascon_state_t s;
+    Obj<ascon_state_t> so;
+    ascon_state_t &s = *so.get();
     load(&s, st);
     ascon_permute(&s, (uint8_t)fr);
     Bytes got = view(&s);
@@ -46,7 +47,8 @@ struct Guarded {
 
 static std::string one_byteop(int op, unsigned off, unsigned size, const Bytes &st, const Bytes &data) {
     Bytes model = st;
-    ascon_state_t s;
+    Obj<ascon_state_t> so;
+    ascon_state_t &s = *so.get();
     load(&s, st);
     Guarded in(size, 0), out(size, 0x5A);
     memcpy(in.p(), data.data(), size);
@@ -133,7 +135,8 @@ static rc::Gen<KV> gen_seq() {
 static std::string check_seq(const KV &c) {
     Bytes model = tobytes(c, "state");
     std::vector<Op> ops = dec_ops(tostr(c, "ops"));
-    ascon_state_t s, s2;
+    Obj<ascon_state_t> so, so2;
+    ascon_state_t &s = *so.get(), &s2 = *so2.get();
     load(&s, model);
     int step = 0;
     for (auto &o : ops) {
@@ -153,11 +156,15 @@ static std::string check_seq(const KV &c) {
             for (int i = 0; i < o.size; ++i) { expect.push_back(model[o.off + i] ^ o.data[i]); model[o.off + i] = o.data[i]; } break;
         case 7: { ascon_permute(&s, (uint8_t)o.fr); ref::State r; memcpy(r.b, model.data(), 40); ref::permute(r, o.fr); model.assign(r.b, r.b + 40); break; }
         case 8: // copy to a second state and continue there
-            ascon_init(&s2); ascon_copy(&s2, &s); ascon_free(&s); ascon_init(&s); ascon_copy(&s, &s2); ascon_free(&s2); break;
+            // (only one state is acquired at any time: the balance checker models one shared resource)
+            ascon_release(&s); ascon_init(&s2); ascon_copy(&s2, &s); ascon_release(&s2);
+            ascon_acquire(&s); ascon_free(&s);
+            ascon_init(&s); ascon_copy(&s, &s2); ascon_release(&s);
+            ascon_acquire(&s2); ascon_free(&s2); ascon_acquire(&s); break;
         case 9: ascon_release(&s); ascon_acquire(&s); break;
         case 10: { // copy must not disturb the source
-            ascon_init(&s2); ascon_copy(&s2, &s);
-            Bytes v2 = view(&s2); ascon_free(&s2);
+            ascon_release(&s); ascon_init(&s2); ascon_copy(&s2, &s);
+            Bytes v2 = view(&s2); ascon_free(&s2); ascon_acquire(&s);
             if (v2 != model) { ascon_free(&s); return "step " + num(step) + ": ascon_copy produced " + hex(v2) + " want " + hex(model); }
             break; }
         }
